@@ -364,11 +364,10 @@ def frames_case(ctx, case):
         return d
 
 
-def frames_task(ctx, examples, shard):
+def frames_strategy():
     from hypothesis import strategies as st
-    from vlib.harness import run_hypothesis
 
-    strat = st.fixed_dictionaries(
+    return st.fixed_dictionaries(
         {
             "kind": st.just("frames"),
             "role": st.sampled_from(["server", "client"]),
@@ -376,6 +375,12 @@ def frames_task(ctx, examples, shard):
             "small": st.booleans(),
         }
     ).flatmap(lambda d: ops_strategy(d["role"]).map(lambda ops: dict(d, ops=ops)))
+
+
+def frames_task(ctx, examples, shard):
+    from vlib.harness import run_hypothesis
+
+    strat = frames_strategy()
 
     def body(ctx, case):
         frames_case(ctx, case)
@@ -559,9 +564,8 @@ def raw_case(ctx, case):
         ctx.case(("raw", repr(case)), nontrivial=progressed, classes=["g12:" + case["state"], "g12:" + ("terminated" if terminated else "alive")] + ["g12:input-" + i[0] for i in case["inputs"]])
 
 
-def raw_task(ctx, examples, shard):
+def raw_strategy():
     from hypothesis import strategies as st
-    from vlib.harness import run_hypothesis
 
     mut = st.lists(st.tuples(st.sampled_from(["flip", "flip", "set", "trunc", "extend", "cidlen", "version", "firstbyte", "pad1200"]), st.integers(0, 1500), st.integers(0, 255)), min_size=1, max_size=3)
     firsts = st.sampled_from([0x00, 0x40, 0x41, 0x7F, 0x80, 0xC0, 0xC3, 0xD0, 0xE0, 0xF0, 0xFF])
@@ -576,7 +580,13 @@ def raw_task(ctx, examples, shard):
         st.tuples(st.just("mutated"), st.integers(0, 20), mut, st.just("othersrc")),
         st.tuples(st.just("coalesce"), st.integers(0, 20), st.integers(0, 20), mut, st.integers(0, 1500)),
     )
-    strat = st.fixed_dictionaries({"kind": st.just("raw"), "state": st.sampled_from(STATES), "inputs": st.lists(inp, min_size=1, max_size=6)})
+    return st.fixed_dictionaries({"kind": st.just("raw"), "state": st.sampled_from(STATES), "inputs": st.lists(inp, min_size=1, max_size=6)})
+
+
+def raw_task(ctx, examples, shard):
+    from vlib.harness import run_hypothesis
+
+    strat = raw_strategy()
 
     def body(ctx, case):
         raw_case(ctx, case)
